@@ -89,3 +89,20 @@ Print Assumptions C13_history_responder.
 Print Assumptions C13_lookup.
 Print Assumptions C13_history_expiry.
 Print Assumptions bucketing_bytes.
+
+(* ---- the model's comparisons are the ones the source writes now (Gen/Sites.v is regenerated from /repo on every run) ---- *)
+From ZC Require Import Gen.Sites Proofs.Sites_C13.
+Theorem C13_site_suppresses : forall h q now known,
+  hist_suppresses h q now known =
+  match hist_get h q with
+  | None => false
+  | Some (than, prev) => if sop_apply site_hist_suppress_age (now - than) site_hist_suppress_age_rhs then false else subset_ident prev known
+  end.
+Proof. exact tie_hist_suppresses. Qed.
+Theorem C13_site_expire : forall h now,
+  hist_expire h now = filter (fun e => negb (sop_apply site_hist_expire_age (now - fst (snd e)) site_hist_expire_age_rhs)) h.
+Proof. exact tie_hist_expire. Qed.
+Theorem C13_site_ops : sites_C13_ops. Proof. exact sites_C13_ops_ok. Qed.
+Print Assumptions C13_site_suppresses.
+Print Assumptions C13_site_expire.
+Print Assumptions C13_site_ops.
